@@ -32,7 +32,11 @@ func verifHarnessC12() {
 		verifAssert(db.Merge() == nil, "C12.merge-err")
 		verifReach("merged")
 	}
-	verifAssert(db.Close() == nil, "C12.close-err")
+	live := verifParam("live") == 1
+	if !live {
+		verifAssert(db.Close() == nil, "C12.close-err")
+	}
+	// (live: the damage happens UNDER the open database - its cached file sizes and pooled buffers are stale now)
 	// pick a victim file (data files, hint file, files of a finished merge awaiting adoption)
 	var victims []string
 	for _, d := range []string{opts.DirPath, opts.DirPath + "-merge"} {
@@ -81,12 +85,17 @@ func verifHarnessC12() {
 	if strings.HasSuffix(victim, ".hint") {
 		verifReach("hint-damaged")
 	}
-	db2, err := Open(opts)
-	if err != nil {
-		verifReach("open-detected")
-		return
+	db2 := db
+	if live {
+		verifReach("damaged-while-open")
+	} else {
+		db2, err = Open(opts)
+		if err != nil {
+			verifReach("open-detected")
+			return
+		}
+		verifReach("open-accepted")
 	}
-	verifReach("open-accepted")
 	for i := range kp.keys {
 		v, err := db2.Get(kp.keys[i])
 		if err != nil {
